@@ -180,6 +180,20 @@ func oracleAfterAttempt(sc *br.Scenario, w *br.World, before, after *br.Snapshot
 		return []br.Finding{{Key: "pod-vanished", Msg: "target pod no longer in the store"}}
 	}
 	key := br.NS + "/" + t
+	// a shared claim stays reserved for its other consumer whatever happens to the target
+	if sc.Target.Opts.ClaimShared && !ao.Crashed {
+		if c := after.Claim(sc.Target.Opts.Claim); c != nil {
+			other := false
+			for _, r := range c.Status.ReservedFor {
+				if r.Name == br.OtherClaimConsumer {
+					other = true
+				}
+			}
+			if !other || c.Status.Allocation == nil {
+				f = append(f, br.Finding{Key: "shared-claim-taken-from-other-consumer", Msg: fmt.Sprintf("claim %s: reservedFor=%v allocation-set=%v after the attempt on the target", c.Name, c.Status.ReservedFor, c.Status.Allocation != nil)})
+			}
+		}
+	}
 	// never bound to another node, never bound twice
 	if pod.Spec.NodeName != "" && pod.Spec.NodeName != sc.Node {
 		f = append(f, br.Finding{Key: "bound-to-other-node", Msg: fmt.Sprintf("pod on %q, request names %q", pod.Spec.NodeName, sc.Node)})
